@@ -114,6 +114,10 @@ pub const PATHS: &[&str] = &[
     "the-wait-path",
     "sub/dir/file.txt",
     "with space",
+    "trailing blank ",
+    " leading blank",
+    "ready file ",
+    "  ",
     "a, b",
     "colon: x",
     "quote\"q",
